@@ -84,7 +84,8 @@ def perturbations(d, rng, quick):
             e[k] = d[k] * c
         for k in SCALED_SERIES:
             e[k] = [x * c for x in d[k]]
-        out.append(("scale", f"x{c}", e, "eq"))
+        # percent fed is scale-free; the feed-round objective is a quantity and scales with c
+        out.append(("scale", f"x{c}", e, "eq" if d["ty"] == "to_humans" else f"eq*{c}"))
     return out
 
 
@@ -162,9 +163,13 @@ def run(ctx):
             continue
         p = r["percent_fed_from_model"]
         ctx.count((json.dumps(spec, sort_keys=True)[:3000], kind, label), nontrivial=base_opt > 0)
-        tol = REL * (1 + abs(base_opt))
+        target = base_opt
+        if exp.startswith("eq*"):
+            target = base_opt * float(exp[3:])
+            exp = "eq"
+        tol = REL * (1 + abs(target))
         badness = (exp == "ge" and p < base_opt - tol) or (exp == "le" and p > base_opt + tol) or \
-                  (exp == "eq" and abs(p - base_opt) > tol)
+                  (exp == "eq" and abs(p - target) > tol)
         if badness:
             ctx.violation(f"C12:{kind}-monotonicity",
                           f"{kind} perturbation {label}: optimum {base_opt} -> {p} (expected {exp}) on {where}",
@@ -202,4 +207,7 @@ def replay(rep):
     bo, po = b["percent_fed_from_model"], p["percent_fed_from_model"]
     tol = REL * (1 + abs(bo))
     exp = rep.get("expected", "ge")
+    if exp.startswith("eq*"):
+        bo = bo * float(exp[3:])
+        exp = "eq"
     return 1 if ((exp == "ge" and po < bo - tol) or (exp == "le" and po > bo + tol) or (exp == "eq" and abs(po - bo) > tol)) else 0
